@@ -734,6 +734,20 @@ def digest_injective(spec):
 # ---------------------------------------------------------------------------
 # C19: `strict` is read only where the property says
 # ---------------------------------------------------------------------------
+STRICT_DEMO = r'''
+import sys, os
+sys.path.insert(0, os.path.join(sys.argv[1], 'src'))
+from chameleon import PageTemplate
+class T(PageTemplate):
+    strict = False
+try:
+    out = T('<p tal:condition="False">${1 +}</p>x')()
+    print('HOLDS', repr(out))
+except Exception as e:
+    print('VIOLATES: a template class configured strict = False rejected an unreached invalid expression at compile time:', type(e).__name__)
+'''
+
+
 def strict_reads_frame(spec):
     t0 = time.time()
     allowed = {('template.py', 'BaseTemplate._compile'), ('compiler.py', 'Compiler.__init__'),
@@ -767,12 +781,40 @@ def strict_reads_frame(spec):
             if isinstance(first, ast.If) and ast.unparse(first.test) == 'self.strict' and \
                     len(first.body) == 1 and isinstance(first.body[0], ast.Raise) and first.body[0].exc is None:
                 shape = True
-    obls = [ob('strict.reads_frame', not offenders,
+    # the value handed to the compiler is the template's `strict` ATTRIBUTE - an instance value or the
+    # class-level configuration of a subclass alike (the same read PageTemplate.digest keys the cache on)
+    cfn = find(parse('template.py'), 'BaseTemplate._compile')
+    local = {}
+    for n in ast.walk(cfn):
+        if isinstance(n, ast.Assign) and len(n.targets) == 1 and isinstance(n.targets[0], ast.Name):
+            local.setdefault(n.targets[0].id, []).append(ast.unparse(n.value))
+    reads = []
+    for n in ast.walk(cfn):
+        if isinstance(n, ast.Call):
+            for kw in n.keywords:
+                if kw.arg == 'strict':
+                    txt = ast.unparse(kw.value)
+                    if isinstance(kw.value, ast.Name) and len(local.get(txt, [])) == 1:
+                        txt = local[txt][0]
+                    reads.append(txt)
+    attr_ok = bool(reads) and all(t in ('self.strict', "getattr(self, 'strict')") for t in reads)
+    obls = [ob('BaseTemplate._compile.strict_is_attribute', attr_ok,
+               'the compiler is given self.strict (attribute lookup: instance value or class-level '
+               'configuration), the value the cache key is computed from',
+               {'strict_arguments': reads}),
+            ob('strict.reads_frame', not offenders,
                '`strict` is read only by _compile, Compiler.__init__, ExpressionTransform and digest',
                {'other_reads': offenders}),
             ob('ExpressionTransform.__call__.strict_shape', shape,
                'on ExpressionError: strict re-raises at compile time, otherwise the error is deferred',
                {'function_line': fn.lineno})]
+    if not attr_ok:
+        # replay on the real classes: a subclass that configures strict = False at class level
+        demo = subprocess.run([PY, '-c', STRICT_DEMO, REPO], capture_output=True, text=True, timeout=120)
+        if demo.stdout.strip().startswith('VIOLATES'):
+            obls[0]['confirmed'] = True
+            obls[0]['witness'] = {'inputs': {'class': "class T(PageTemplate): strict = False", 'body': '<p tal:condition="False">${1 +}</p>'},
+                                  'detail': demo.stdout.strip()[:400]}
     return {'unit': 'frames.strict_reads_frame', 'function': 'compiler.py::ExpressionTransform.__call__',
             'obligations': obls, 'wall': time.time() - t0}
 
